@@ -83,3 +83,161 @@ package ast
 //@   assigns class:ast.VariableDefinition.Kind
 //@   nopanic
 //@   ensures result == vd
+
+// ---- node constructors that copy: a fresh node of the right kind carrying EVERY field of the given one (C03) ----
+//@ func NewBooleanValue
+//@   props C03
+//@   assigns nothing
+//@   nopanic
+//@   ensures result != nil && fresh(result)
+//@   ensures v != nil ==> result.Loc == v.Loc && result.Value == v.Value
+//@ func NewDirective
+//@   props C03
+//@   assigns nothing
+//@   nopanic
+//@   ensures result != nil && fresh(result)
+//@   ensures dir != nil ==> result.Loc == dir.Loc && result.Name == dir.Name && result.Arguments == dir.Arguments
+//@ func NewDirectiveDefinition
+//@   props C03
+//@   assigns nothing
+//@   nopanic
+//@   ensures result != nil && fresh(result)
+//@   ensures def != nil ==> result.Loc == def.Loc && result.Name == def.Name && result.Description == def.Description && result.Arguments == def.Arguments && result.Locations == def.Locations
+//@ func NewDocument
+//@   props C03
+//@   assigns nothing
+//@   nopanic
+//@   ensures result != nil && fresh(result)
+//@   ensures d != nil ==> result.Loc == d.Loc && result.Definitions == d.Definitions
+//@ func NewEnumDefinition
+//@   props C03
+//@   assigns nothing
+//@   nopanic
+//@   ensures result != nil && fresh(result)
+//@   ensures def != nil ==> result.Loc == def.Loc && result.Name == def.Name && result.Description == def.Description && result.Directives == def.Directives && result.Values == def.Values
+//@ func NewEnumValue
+//@   props C03
+//@   assigns nothing
+//@   nopanic
+//@   ensures result != nil && fresh(result)
+//@   ensures v != nil ==> result.Loc == v.Loc && result.Value == v.Value
+//@ func NewEnumValueDefinition
+//@   props C03
+//@   assigns nothing
+//@   nopanic
+//@   ensures result != nil && fresh(result)
+//@   ensures def != nil ==> result.Loc == def.Loc && result.Name == def.Name && result.Description == def.Description && result.Directives == def.Directives
+//@ func NewFieldDefinition
+//@   props C03
+//@   assigns nothing
+//@   nopanic
+//@   ensures result != nil && fresh(result)
+//@   ensures def != nil ==> result.Loc == def.Loc && result.Name == def.Name && result.Description == def.Description && result.Arguments == def.Arguments && result.Type == def.Type && result.Directives == def.Directives
+//@ func NewFloatValue
+//@   props C03
+//@   assigns nothing
+//@   nopanic
+//@   ensures result != nil && fresh(result)
+//@   ensures v != nil ==> result.Loc == v.Loc && result.Value == v.Value
+//@ func NewFragmentDefinition
+//@   props C03
+//@   assigns nothing
+//@   nopanic
+//@   ensures result != nil && fresh(result)
+//@   ensures fd != nil ==> result.Loc == fd.Loc && result.Operation == fd.Operation && result.Name == fd.Name && result.VariableDefinitions == fd.VariableDefinitions && result.TypeCondition == fd.TypeCondition && result.Directives == fd.Directives && result.SelectionSet == fd.SelectionSet
+//@ func NewFragmentSpread
+//@   props C03
+//@   assigns nothing
+//@   nopanic
+//@   ensures result != nil && fresh(result)
+//@   ensures fs != nil ==> result.Loc == fs.Loc && result.Name == fs.Name && result.Directives == fs.Directives
+//@ func NewInlineFragment
+//@   props C03
+//@   assigns nothing
+//@   nopanic
+//@   ensures result != nil && fresh(result)
+//@   ensures f != nil ==> result.Loc == f.Loc && result.TypeCondition == f.TypeCondition && result.Directives == f.Directives && result.SelectionSet == f.SelectionSet
+//@ func NewInputObjectDefinition
+//@   props C03
+//@   assigns nothing
+//@   nopanic
+//@   ensures result != nil && fresh(result)
+//@   ensures def != nil ==> result.Loc == def.Loc && result.Name == def.Name && result.Description == def.Description && result.Directives == def.Directives && result.Fields == def.Fields
+//@ func NewInputValueDefinition
+//@   props C03
+//@   assigns nothing
+//@   nopanic
+//@   ensures result != nil && fresh(result)
+//@   ensures def != nil ==> result.Loc == def.Loc && result.Name == def.Name && result.Description == def.Description && result.Type == def.Type && result.DefaultValue == def.DefaultValue && result.Directives == def.Directives
+//@ func NewIntValue
+//@   props C03
+//@   assigns nothing
+//@   nopanic
+//@   ensures result != nil && fresh(result)
+//@   ensures v != nil ==> result.Loc == v.Loc && result.Value == v.Value
+//@ func NewInterfaceDefinition
+//@   props C03
+//@   assigns nothing
+//@   nopanic
+//@   ensures result != nil && fresh(result)
+//@   ensures def != nil ==> result.Loc == def.Loc && result.Name == def.Name && result.Description == def.Description && result.Directives == def.Directives && result.Fields == def.Fields
+//@ func NewListValue
+//@   props C03
+//@   assigns nothing
+//@   nopanic
+//@   ensures result != nil && fresh(result)
+//@   ensures v != nil ==> result.Loc == v.Loc && result.Values == v.Values
+//@ func NewObjectDefinition
+//@   props C03
+//@   assigns nothing
+//@   nopanic
+//@   ensures result != nil && fresh(result)
+//@   ensures def != nil ==> result.Loc == def.Loc && result.Name == def.Name && result.Description == def.Description && result.Interfaces == def.Interfaces && result.Directives == def.Directives && result.Fields == def.Fields
+//@ func NewObjectField
+//@   props C03
+//@   assigns nothing
+//@   nopanic
+//@   ensures result != nil && fresh(result)
+//@   ensures f != nil ==> result.Name == f.Name && result.Loc == f.Loc && result.Value == f.Value
+//@ func NewObjectValue
+//@   props C03
+//@   assigns nothing
+//@   nopanic
+//@   ensures result != nil && fresh(result)
+//@   ensures v != nil ==> result.Loc == v.Loc && result.Fields == v.Fields
+//@ func NewOperationTypeDefinition
+//@   props C03
+//@   assigns nothing
+//@   nopanic
+//@   ensures result != nil && fresh(result)
+//@   ensures def != nil ==> result.Loc == def.Loc && result.Operation == def.Operation && result.Type == def.Type
+//@ func NewScalarDefinition
+//@   props C03
+//@   assigns nothing
+//@   nopanic
+//@   ensures result != nil && fresh(result)
+//@   ensures def != nil ==> result.Loc == def.Loc && result.Description == def.Description && result.Name == def.Name && result.Directives == def.Directives
+//@ func NewSchemaDefinition
+//@   props C03
+//@   assigns nothing
+//@   nopanic
+//@   ensures result != nil && fresh(result)
+//@   ensures def != nil ==> result.Loc == def.Loc && result.Directives == def.Directives && result.OperationTypes == def.OperationTypes
+//@ func NewStringValue
+//@   props C03
+//@   assigns nothing
+//@   nopanic
+//@   ensures result != nil && fresh(result)
+//@   ensures v != nil ==> result.Loc == v.Loc && result.Value == v.Value
+//@ func NewTypeExtensionDefinition
+//@   props C03
+//@   assigns nothing
+//@   nopanic
+//@   ensures result != nil && fresh(result)
+//@   ensures def != nil ==> result.Loc == def.Loc && result.Definition == def.Definition
+//@ func NewUnionDefinition
+//@   props C03
+//@   assigns nothing
+//@   nopanic
+//@   ensures result != nil && fresh(result)
+//@   ensures def != nil ==> result.Loc == def.Loc && result.Name == def.Name && result.Description == def.Description && result.Directives == def.Directives && result.Types == def.Types
